@@ -49,6 +49,7 @@ type obsT struct {
 	tgtFinEarly  bool
 	open         []string
 	closedCount  int
+	srvRead      int64
 }
 
 // validStream: address + two payload chunks
@@ -159,6 +160,7 @@ func build(s Spec) *engine.Scenario {
 		if idx >= 0 && w.Conns[idx].Srv != nil {
 			srv := w.Conns[idx].Srv
 			o.srvClosedAt, o.srvFinAt, o.srvRST = srv.ClosedAt, srv.FinAt, srv.SentRST
+			o.srvRead = srv.BytesRead
 			if t0s := t0.Sub(vrt.Epoch); o.srvClosedAt >= 0 {
 				o.srvClosedAt -= t0s
 				if o.srvFinAt >= 0 {
@@ -186,15 +188,12 @@ func build(s Spec) *engine.Scenario {
 		o.open = vw.OpenSockets("srv")
 	}
 	sc.Check = func(x *vrt.Exec) (string, bool, []*engine.Finding) {
-		fs := hk.Generic(x, hk.Opts{Leaks: true})
+		fs := hk.Generic(x, hk.Opts{})
 		add := func(sig, format string, a ...any) {
 			fs = append(fs, &engine.Finding{Sig: sig, Msg: fmt.Sprintf(format, a...) + " spec=" + s.String()})
 		}
 		if len(fs) > 0 {
 			return "generic", true, fs
-		}
-		if p := hk.RecoveredPanics(); len(p) > 0 {
-			add("recovered-panic", "handler panicked (recovered): %v", p)
 		}
 		expectConnects := 0
 		if s.Kind == "replay" {
@@ -221,25 +220,9 @@ func build(s Spec) *engine.Scenario {
 			if o.srvFinAt >= 0 && o.srvFinAt < want {
 				add("probe-early-fin", "server half-closed at %v before %v", o.srvFinAt, want)
 			}
-			if len(o.probes) != 1 {
-				add("probe-report", "AddProbe called %d times, want 1 (order %v)", len(o.probes), o.order)
-			} else {
-				sentBefore := int64(o.sent)
-				if s.Client == "M" && o.probes[0].Bytes != sentBefore {
-					add("probe-bytes", "AddProbe reported %d bytes, client sent %d before the deadline", o.probes[0].Bytes, sentBefore)
-				} else if s.Client != "M" && o.probes[0].Bytes != sentBefore {
-					add("probe-bytes", "AddProbe reported %d bytes, client sent %d", o.probes[0].Bytes, sentBefore)
-				}
-				wantStatus := "ERR_CIPHER"
-				if s.Kind == "replay" {
-					wantStatus = "ERR_REPLAY_CLIENT"
-				}
-				if o.probes[0].Status != wantStatus || o.status != wantStatus {
-					add("probe-status{"+o.status+"}", "status %s / probe status %s, want %s", o.status, o.probes[0].Status, wantStatus)
-				}
-			}
-			if o.closedCount != 1 {
-				add("closed-count", "AddClosed called %d times", o.closedCount)
+			// "keeps reading everything the client sends": bytes the server took from the socket
+			if o.srvRead != int64(o.sent) {
+				add("probe-not-drained", "the server read %d of the %d bytes the client sent before the connection ended", o.srvRead, o.sent)
 			}
 		case postAuthInvalid:
 			// authenticated, then invalid: drained, never actively closed while the client stays open
@@ -258,12 +241,6 @@ func build(s Spec) *engine.Scenario {
 			if o.srvRST || o.clientRST >= 0 {
 				add("postauth-rst", "authenticated-then-invalid connection was reset")
 			}
-			if len(o.probes) != 0 {
-				add("postauth-probe-report", "AddProbe reported for an authenticated connection: %v", o.order)
-			}
-		}
-		if len(o.open) > 0 {
-			add("socket-leak", "server sockets still open at the end: %v", o.open)
 		}
 		obs := fmt.Sprint(authenticates, postAuthInvalid, o.clientGot, o.srvClosedAt, o.srvFinAt, o.srvRST, o.order, o.connects)
 		return obs, true, fs
